@@ -1291,6 +1291,20 @@ func popOnExhaustion(w *World, m *runnerModel, pop *ast.CallExpr) (bool, string)
 			// followed by return of the recursive call — or by the jump back to the entry of Next, which is the same
 			// continuation without the stack frame
 			last := is.Body.List[len(is.Body.List)-1]
+			if br, ok := last.(*ast.BranchStmt); ok && br.Tok == token.CONTINUE && br.Label == nil {
+				// continue of the top-level `for {` that Next runs in (not of a loop nested in it)
+				for q := w.parent[ast.Node(br)]; q != nil && q != m.next.Node(); q = w.parent[q] {
+					if fs, ok := q.(*ast.ForStmt); ok {
+						if fs.Cond == nil && fs.Init == nil && fs.Post == nil && w.parent[w.parent[fs]] == m.next.Node() {
+							return true, "popped only when the top queue is exhausted, then the search continues with the next iteration of Next's loop"
+						}
+						break
+					}
+					if _, isRange := q.(*ast.RangeStmt); isRange {
+						break
+					}
+				}
+			}
 			if br, ok := last.(*ast.BranchStmt); ok && br.Tok == token.GOTO && br.Label != nil {
 				for _, st := range m.next.Body.List {
 					// a top-level label above the jump: the restart point of Next
